@@ -23,6 +23,7 @@ import (
 	"path/filepath"
 	"strings"
 	"sync"
+	"unicode/utf8"
 
 	oci "github.com/opencontainers/runtime-spec/specs-go"
 	orderedyaml "gopkg.in/yaml.v3"
@@ -140,6 +141,7 @@ func (s *Spec) write(overwrite bool) error {
 		data = append([]byte("---\n"), data...)
 	} else {
 		data, err = json.Marshal(s.Spec)
+		data = escapeJSONForYAML(data)
 	}
 	if err != nil {
 		return fmt.Errorf("failed to marshal Spec file: %w", err)
@@ -176,6 +178,31 @@ func (s *Spec) write(overwrite bool) error {
 	verifPoint("write.done", s.path, err)
 
 	return err
+}
+
+// escapeJSONForYAML escapes DEL and the C1 control characters (U+007F-U+009F)
+// in marshalled JSON. JSON allows them unescaped in strings, but we parse Spec
+// files, JSON ones included, with a YAML parser, which rejects them or, for
+// U+0085 (a YAML line break), alters them: such a Spec could be written but not
+// read back. The escaped form is equivalent JSON and is read back unchanged.
+func escapeJSONForYAML(data []byte) []byte {
+	var out []byte
+	for i := 0; i < len(data); {
+		r, size := utf8.DecodeRune(data[i:])
+		if r == 0x7f || (size > 1 && r >= 0x80 && r <= 0x9f) {
+			if out == nil {
+				out = append(make([]byte, 0, len(data)+8), data[:i]...)
+			}
+			out = append(out, fmt.Sprintf("\\u%04x", r)...)
+		} else if out != nil {
+			out = append(out, data[i:i+size]...)
+		}
+		i += size
+	}
+	if out == nil {
+		return data
+	}
+	return out
 }
 
 // GetVendor returns the vendor of this Spec.
